@@ -488,3 +488,28 @@ def enclosing_statement(func_node: ast.AST, target: ast.AST) -> Optional[ast.stm
             if best is None or any(x is s_ for x in ast.walk(best)):
                 best = s_
     return best
+
+
+def attr_is_constructor_param(model: "Model", cls: str, attr: str) -> Optional[str]:
+    """The __init__ parameter that self.<attr> is bound to, when that plain binding in __init__ is the only store to the
+    attribute anywhere in the class and its bases; None otherwise."""
+    stores = []
+    ci0 = model.classes.get(cls)
+    if ci0 is None:
+        return None
+    for c in ci0.mro:
+        ci = model.classes.get(c)
+        for m in (ci.methods.values() if ci else ()):
+            for n in walk_no_nested(m.node):
+                if isinstance(n, (ast.Assign, ast.AnnAssign, ast.AugAssign)):
+                    for t_ in (n.targets if isinstance(n, ast.Assign) else [n.target]):
+                        for x in ast.walk(t_):
+                            if isinstance(x, ast.Attribute) and x.attr == attr and isinstance(x.value, ast.Name) and x.value.id == "self":
+                                stores.append((m, n))
+    if len(stores) != 1:
+        return None
+    m, n = stores[0]
+    if m.name == "__init__" and isinstance(n, (ast.Assign, ast.AnnAssign)) and isinstance(n.value, ast.Name) and n.value.id in m.params()[1:] and \
+            not any(isinstance(x, ast.Name) and x.id == n.value.id and isinstance(x.ctx, ast.Store) for x in walk_no_nested(m.node)):
+        return n.value.id
+    return None
